@@ -627,3 +627,58 @@ def parsing_entry(ctx: Ctx, rule: str) -> None:
         "next.is_flat() and not next.is_unrolled(worker) and (len(unexplored_nodes) > 0 or next.should_parse(worker))", mode="eval").body))
     ctx.record(rule + "c", "GUARD", f.ref, "lazy expansion: flat and not unrolled for this worker and (unexplored nodes remain or should_parse)", okc, {},
                "" if okc else "the condition under which a worker expands a flat node lazily changed")
+
+
+# ---------------------------------------------------------------------- name forms
+def name_forms(ctx: Ctx, rule: str) -> None:
+    """setless_form strips the longest matching main restriction; bridged_form generalises the net suffix of it."""
+    fref = f"{N_}.setless_form"
+    fn = ctx.repo.func(fref)
+    ctx.touch(fref)
+    loops = [l for l in ast.walk(fn.node) if isinstance(l, ast.For)]
+    ok = len(loops) == 1 and ast.unparse(loops[0].iter) == "self.params.objects('main_restrictions')" and isinstance(loops[0].target, ast.Name)
+    detail = {}
+    if ok:
+        l = loops[0]
+        r = l.target.id
+        views = loop_iteration_views(ctx, fref, l, None)
+        acc = None
+        for v in views:
+            if v.path.exit not in ("fall", "continue"):
+                ok = False
+            st = [(i, s) for i, s in v.stmts(lambda s: isinstance(s, ast.Assign) and isinstance(s.targets[0], ast.Name))]
+            prem = v.premise(len(v.steps), 0)
+            starts = norm.formula(ast.parse(f"self.params['name'].startswith({r})", mode="eval").body)
+            if st:
+                acc = st[0][1].targets[0].id
+                if not norm.implies(norm.conj([v.cond_formula(i) for i, s_ in enumerate(v.steps) if s_.kind == "cond"]), starts):
+                    ok = False
+                val = st[0][1].value
+                longer = norm.formula(ast.parse(f"len({r}) > len({acc})", mode="eval").body)
+                if isinstance(val, ast.IfExp):
+                    f = norm.formula(val.test)
+                    good = (norm.equivalent(f, longer) and ast.unparse(val.body) == r and ast.unparse(val.orelse) == acc)
+                    ok = ok and good
+                elif ast.unparse(val) == r:
+                    if not norm.implies(norm.conj([v.cond_formula(i) for i, s_ in enumerate(v.steps) if s_.kind == "cond"]), longer):
+                        ok = False
+                else:
+                    ok = False
+        rets = [x for x in fn.node.body if isinstance(x, ast.Return)]
+        ok = ok and acc is not None and len(rets) == 1 and ast.unparse(rets[0].value) == f"self.params['name'].replace({acc} + '.', '', 1)" \
+            and not any(isinstance(x, (ast.Break, ast.Return)) for x in ast.walk(l))
+        inits = [s for s in fn.node.body if isinstance(s, ast.Assign) and acc and ast.unparse(s.targets[0]) == acc]
+        ok = ok and len(inits) == 1 and ast.unparse(inits[0].value) == "''"
+        detail["accumulator"] = acc
+    ctx.record(rule, "TABLE", fref, "setless_form = name with the LONGEST main restriction that prefixes it removed (all restrictions are examined)", ok, detail,
+               "" if ok else "the set-invariant name form no longer strips the longest matching test set prefix: nodes of nested sets get different identities "
+               "(duplicated setup, failed reuse and intersection)")
+    fref2 = f"{N_}.bridged_form"
+    f2 = ctx.repo.func(fref2)
+    ctx.touch(fref2)
+    rets = [ast.unparse(r_.value) for r_ in ast.walk(f2.node) if isinstance(r_, ast.Return)]
+    ok2 = sorted(rets) == sorted(["self.setless_form", "'\\\\.' + self.setless_form.replace(suffix, '.+') + '$'"])
+    sdef = [s for s in f2.node.body if isinstance(s, ast.Assign) and ast.unparse(s.targets[0]) == "suffix"]
+    ok2 = ok2 and len(sdef) == 1 and ast.unparse(sdef[0].value) == "self.params['_name_map_file'].get('nets.cfg', '')"
+    ctx.record(rule + "b", "TABLE", fref2, "bridged_form = setless form with the net variant generalised ('.+'), anchored at a variant boundary and the end; flat nodes: setless form", ok2,
+               {"returns": rets}, "" if ok2 else "the worker-invariant name form changed: equivalent nodes of different workers may no longer be linked")
